@@ -36,20 +36,13 @@ func init() {
 		return fr.i.jsonMarshalTuple(fr, args[0].(iface), false)
 	})
 	reg("encoding/json.Valid", func(fr *frame, args []value) value {
-		b, ok := concreteBytes(args[0])
-		if !ok {
-			panic(unsupported{"json.Valid on symbolic text"})
-		}
-		return json.Valid(b)
+		return json.Valid(fr.i.jsonIn(fr, args[0]))
 	})
 	reg("github.com/nyaruka/gocommon/jsonx.marshal", func(fr *frame, args []value) value {
 		return fr.i.jsonMarshalTuple(fr, args[0].(iface), true)
 	})
 	reg("github.com/nyaruka/gocommon/jsonx.DecodeGeneric", func(fr *frame, args []value) value {
-		b, ok := concreteBytes(args[0])
-		if !ok {
-			panic(unsupported{"jsonx.DecodeGeneric on symbolic text"})
-		}
+		b := fr.i.jsonIn(fr, args[0])
 		dec := json.NewDecoder(bytes.NewReader(b))
 		dec.UseNumber()
 		var g interface{}
@@ -60,6 +53,85 @@ func init() {
 	})
 	// the validator library is reflection based: cut (trusted)
 	reg("github.com/nyaruka/goflow/utils.Validate", func(fr *frame, args []value) value { return iface{} })
+}
+
+// Symbolic bytes inside JSON text: a symbolic byte that is a plain string
+// character (0x20..0x7e except quote and backslash — decided, forking
+// otherwise) is replaced by a private-use placeholder rune for the host's
+// JSON tokenizer and mapped back wherever decoded text re-enters the
+// interpreter, so that JSON syntax stays concrete while string content stays
+// symbolic.
+const placeholderBase = 0xE000
+
+func (i *Interp) jsonIn(fr *frame, v value) []byte {
+	if b, ok := concreteBytes(v); ok {
+		return b
+	}
+	var src []value
+	switch t := v.(type) {
+	case sstring:
+		src = []value(t)
+	case []value:
+		src = t
+	default:
+		panic(unsupported{fmt.Sprintf("json input of %T", v)})
+	}
+	ex := i.needEx("json")
+	out := make([]byte, 0, len(src)+8)
+	for _, b := range src {
+		if c, ok := b.(uint8); ok {
+			out = append(out, c)
+			continue
+		}
+		t := b.(*Term)
+		ts := i.ts
+		plain := ts.And(ts.Cmp(OpULE, ts.BV(0x20, 8), t), ts.Cmp(OpULT, t, ts.BV(0x7f, 8)))
+		plain = ts.And(plain, ts.Not(ts.Eq(t, ts.BV('"', 8))))
+		plain = ts.And(plain, ts.Not(ts.Eq(t, ts.BV('\\', 8))))
+		if !i.decide(plain, fr, "json-plain") {
+			out = append(out, byte(i.concretize(t, 0, 255, fr)))
+			continue
+		}
+		idx, ok := ex.placeholders[t]
+		if !ok {
+			idx = len(ex.placeholderTerms)
+			if ex.placeholders == nil {
+				ex.placeholders = map[*Term]int{}
+			}
+			ex.placeholders[t] = idx
+			ex.placeholderTerms = append(ex.placeholderTerms, t)
+		}
+		out = utf8.AppendRune(out, rune(placeholderBase+idx))
+	}
+	return out
+}
+
+// jsonOutBytes maps placeholder runes in host-produced text back to their
+// symbolic bytes.
+func (i *Interp) jsonOutBytes(b []byte) []value {
+	if i.ex == nil || len(i.ex.placeholderTerms) == 0 || !bytes.Contains(b, []byte{0xEE}) {
+		return bytesValue(b)
+	}
+	out := make([]value, 0, len(b))
+	for len(b) > 0 {
+		r, n := utf8.DecodeRune(b)
+		if idx := int(r) - placeholderBase; r >= placeholderBase && idx < len(i.ex.placeholderTerms) {
+			out = append(out, i.ex.placeholderTerms[idx])
+		} else {
+			for _, c := range b[:n] {
+				out = append(out, c)
+			}
+		}
+		b = b[n:]
+	}
+	return out
+}
+
+func (i *Interp) jsonOutString(s string) value {
+	if i.ex == nil || len(i.ex.placeholderTerms) == 0 || !strings.Contains(s, "\xee") {
+		return s
+	}
+	return mkString(i.jsonOutBytes([]byte(s)))
 }
 
 func concreteBytes(v value) ([]byte, bool) {
@@ -118,7 +190,7 @@ func (i *Interp) genericToValue(g interface{}, useNumber bool) value {
 	case bool:
 		return iface{t: types.Typ[types.Bool], v: t}
 	case string:
-		return iface{t: types.Typ[types.String], v: t}
+		return iface{t: types.Typ[types.String], v: i.jsonOutString(t)}
 	case json.Number:
 		if useNumber {
 			return iface{t: i.jsonNumberT(), v: string(t)}
@@ -141,6 +213,9 @@ func (i *Interp) genericToValue(g interface{}, useNumber bool) value {
 		}
 		sort.Strings(keys)
 		for _, k := range keys {
+			if _, sym := i.jsonOutString(k).(sstring); sym {
+				panic(unsupported{"json: object key with symbolic bytes"})
+			}
 			m.keys = append(m.keys, k)
 			m.vals = append(m.vals, i.genericToValue(t[k], useNumber))
 			m.live = append(m.live, true)
@@ -155,10 +230,7 @@ func (i *Interp) genericToValue(g interface{}, useNumber bool) value {
 // ---- Unmarshal -----------------------------------------------------------
 
 func (i *Interp) jsonUnmarshal(fr *frame, data value, target iface, useNumber bool) value {
-	b, ok := concreteBytes(data)
-	if !ok {
-		panic(unsupported{"json.Unmarshal of symbolic text"})
-	}
+	b := i.jsonIn(fr, data)
 	if target.t == nil {
 		return i.mkError("json: Unmarshal(nil)")
 	}
@@ -207,7 +279,7 @@ func (i *Interp) jsonDecodeInto(fr *frame, t types.Type, cell *value, g interfac
 						return "" // null is a no-op for Unmarshalers (except RawMessage)
 					}
 				}
-				res := i.callFn(fr, m, cell, bytesValue(rawOf(g)))
+				res := i.callFn(fr, m, cell, i.jsonOutBytes(rawOf(g)))
 				if e := res.(iface); e.t != nil {
 					return i.panicText(e)
 				}
@@ -215,7 +287,7 @@ func (i *Interp) jsonDecodeInto(fr *frame, t types.Type, cell *value, g interfac
 			}
 			if s, ok := g.(string); ok {
 				if m := i.methodOf(pt, "UnmarshalText", 1); m != nil {
-					res := i.callFn(fr, m, cell, bytesValue([]byte(s)))
+					res := i.callFn(fr, m, cell, i.jsonOutBytes([]byte(s)))
 					if e := res.(iface); e.t != nil {
 						return i.panicText(e)
 					}
@@ -262,7 +334,7 @@ func (i *Interp) jsonDecodeInto(fr *frame, t types.Type, cell *value, g interfac
 				}
 				return fmt.Sprintf("json: cannot unmarshal %s into Go value of type %s", jsonKind(g), t)
 			}
-			i.tr.store(cell, s)
+			i.tr.store(cell, i.jsonOutString(s))
 		case k == types.Bool:
 			b, ok := g.(bool)
 			if !ok {
